@@ -41,8 +41,8 @@ def enum_small(tier):
 
 @st.composite
 def random_graph(draw):
-    n = draw(st.integers(7, 40))
-    dens = draw(st.sampled_from([0.0, 0.02, 0.05, 0.1, 0.3, 1.0]))
+    n = draw(st.one_of(st.integers(7, 40), st.integers(7, 40), st.sampled_from([64, 129, 300])))
+    dens = draw(st.sampled_from([0.0, 0.02, 0.05, 0.1, 0.3, 1.0])) if n <= 40 else draw(st.sampled_from([0.0, 0.001, 0.005]))
     ps = pairs(n)
     if dens == 0.0:
         edges = []
